@@ -380,7 +380,62 @@ fn ising_single<R: rand::Rng>(ctx: &mut Ctx, g: &mut G<R>, rel: &str, call: &str
     }
 }
 
+/// Does the sampler hold a term that is NOT symmetric under the global spin flip? Computed here
+/// from ALL 4^n entries of every bond's table (read through `Interaction::at`), never from the
+/// library's own `sym_under_ising()` / `breaks_ising_symmetry`.
+fn asymmetric_bonds(q: &Q) -> Vec<usize> {
+    let js = serde_json::to_value(q.get_bonds()).unwrap();
+    let mut out = vec![];
+    for (bi, (b, jb)) in q.get_bonds().iter().zip(js.as_array().unwrap().iter()).enumerate() {
+        let k = jb["vars"].as_array().unwrap().len();
+        let pats = patterns(k);
+        let neg = |p: &Vec<bool>| p.iter().map(|x| !*x).collect::<Vec<bool>>();
+        let mut asym = false;
+        for o in pats.iter() {
+            for i in pats.iter() {
+                if b.at(i, o).unwrap() != b.at(&neg(i), &neg(o)).unwrap() {
+                    asym = true;
+                }
+            }
+        }
+        if asym {
+            out.push(bi);
+        }
+    }
+    out
+}
+
+/// `cluster_update()` with the gate oracle: the plain (unweighted) cluster flip must not run at
+/// all while an Ising-asymmetric term is registered.
+fn generic_cluster(ctx: &mut Ctx, q: &mut Q, call: &str) -> bool {
+    let asym = asymmetric_bonds(q);
+    if !asym.is_empty() {
+        stat("gate.asymmetric_sampler_cluster_calls", 1);
+    }
+    let gate = q.should_do_cluster_update();
+    generic_single_x(ctx, q, "gcluster", call, move |q| {
+        let ran = q.cluster_update().is_ok();
+        if !asym.is_empty() && (ran || gate) {
+            Err(format!(
+                "C07 cluster update {} although bond(s) {:?} are not symmetric under the global spin flip (all 4^n entries compared)",
+                if ran { "ran" } else { "is enabled (should_do_cluster_update)" },
+                asym
+            ))
+        } else {
+            Ok(())
+        }
+    })
+}
+
 fn generic_single(ctx: &mut Ctx, q: &mut Q, rel: &str, call: &str, f: impl FnOnce(&mut Q)) -> bool {
+    generic_single_x(ctx, q, rel, call, |q| {
+        f(q);
+        Ok(())
+    })
+}
+
+/// Like `generic_single`; the closure's verdict is an extra (real-code-only) oracle clause.
+fn generic_single_x(ctx: &mut Ctx, q: &mut Q, rel: &str, call: &str, f: impl FnOnce(&mut Q) -> Result<(), String>) -> bool {
     let b = snap_q(q);
     let sweep = q.get_cutoff();
     let r = catch(|| f(q));
@@ -390,11 +445,11 @@ fn generic_single(ctx: &mut Ctx, q: &mut Q, rel: &str, call: &str, f: impl FnOnc
             emit_panic(ctx, rel, call, &tok, sweep, &b, &msg);
             false
         }
-        Ok(()) => {
+        Ok(extra) => {
             let a = snap_q(q);
             let fold = fold_q(q);
             let hv = generic_view(q);
-            emit_case(ctx, rel, call, &hv, sweep, &b, &a, q.get_manager_ref(), fold, Ok(()));
+            emit_case(ctx, rel, call, &hv, sweep, &b, &a, q.get_manager_ref(), fold, extra);
             true
         }
     }
@@ -475,7 +530,7 @@ fn generic_timestep(ctx: &mut Ctx, q: &mut Q, beta: f64) -> bool {
         ok = generic_single(ctx, q, "loop", "timestep/loop_update", |q| q.loop_update());
     }
     if ok && q.should_do_cluster_update() {
-        ok = generic_single(ctx, q, "gcluster", "timestep/cluster_update", |q| q.cluster_update().unwrap());
+        ok = generic_cluster(ctx, q, "timestep/cluster_update");
     }
     if ok {
         ok = generic_single(ctx, q, "free", "timestep/flip_free_bits", |q| q.flip_free_bits());
@@ -619,9 +674,7 @@ fn generic_walk(ctx: &mut Ctx, r: &mut SplitMix64, q: &mut Q, other: Option<&mut
             6 => {
                 if q.should_do_cluster_update() || r.chance(1, 2) {
                     // cluster_update returns Err (and changes nothing) if Ising symmetry is broken
-                    generic_single(ctx, q, "gcluster", "cluster_update", |q| {
-                        let _ = q.cluster_update();
-                    })
+                    generic_cluster(ctx, q, "cluster_update")
                 } else {
                     true
                 }
@@ -1183,6 +1236,78 @@ fn build_generic(r: &mut SplitMix64, kind: u64, nvars: usize, state: Vec<bool>, 
                 q.make_interaction(vec![0.5, 0.5, 0.5, 0.5], vec![0]).unwrap();
             }
         }
+        7 => {
+            // FULL two- (and three-) variable matrices that are Ising symmetric EXCEPT for one pair
+            // of entries (idx, ~idx); the pair is placed in each quarter of the index range in turn
+            // (in particular the blocks with MIXED output bits), on the diagonal or off it; one
+            // member of the pair may be 0 (so a wrongly run plain cluster flip stores a zero-weight
+            // op). Next to symmetric bonds and constant single-site terms (cluster edges exist).
+            let d = *r.pick(&[0.5, 1.0, 2.0]);
+            let x1 = *r.pick(&[0.25, 0.5]);
+            let x2 = *r.pick(&[0.25, 0.75]);
+            let pop = |x: usize| x.count_ones() as usize;
+            let three = nvars >= 3 && r.coin();
+            let k = if three { 3usize } else { 2usize };
+            let size = 1usize << (2 * k);
+            let mut m = vec![0.0; size];
+            for o in 0..(1usize << k) {
+                for i in 0..(1usize << k) {
+                    m[(o << k) | i] = match pop(o ^ i) {
+                        0 => d,
+                        1 => x1,
+                        _ => x2,
+                    };
+                }
+            }
+            let quarter = *r.pick(&[0usize, 1, 2, 3, 1, 2]);
+            let qlen = size / 4;
+            let idx = if r.chance(2, 3) {
+                // a diagonal entry inside this quarter if there is one: o == i, index = (o << k) | o
+                let diag: Vec<usize> = (0..(1usize << k)).map(|o| (o << k) | o).filter(|x| x / qlen == quarter).collect();
+                if diag.is_empty() { quarter * qlen + r.below(qlen as u64) as usize } else { *r.pick(&diag) }
+            } else {
+                quarter * qlen + r.below(qlen as u64) as usize
+            };
+            let partner = !idx & (size - 1);
+            match r.below(3) {
+                0 => {
+                    m[idx] += 1.0;
+                    m[partner] = 0.0;
+                }
+                1 => m[idx] = 0.0,
+                _ => m[idx] += 0.5,
+            }
+            stat(&format!("asym.k{}.quarter{}", k, quarter), 1);
+            let v0 = r.below((nvars - k + 1) as u64) as usize;
+            let vars_full: Vec<usize> = if k == 2 {
+                if r.coin() { vec![v0, v0 + 1] } else { vec![v0 + 1, v0] }
+            } else {
+                vec![v0, v0 + 2, v0 + 1]
+            };
+            let c = *r.pick(&[0.5, 1.0, 2.0]);
+            let mut terms: Vec<(u8, usize)> = vec![(9, 0)];
+            for v in 0..nvars {
+                if v == 0 || r.chance(2, 3) {
+                    terms.push((1, v));
+                }
+            }
+            for v in 0..nvars - 1 {
+                if r.coin() {
+                    terms.push((0, v));
+                }
+            }
+            for i in (1..terms.len()).rev() {
+                let j = r.below(i as u64 + 1) as usize;
+                terms.swap(i, j);
+            }
+            for (t, v) in terms {
+                match t {
+                    9 => q.make_interaction(m.clone(), vars_full.clone()).unwrap(),
+                    1 => q.make_interaction(vec![c, c, c, c], vec![v]).unwrap(),
+                    _ => q.make_diagonal_interaction(vec![1.0, 0.0, 0.0, 1.0], vec![v, v + 1]).unwrap(),
+                }
+            }
+        }
         _ => {
             // mixed: three-variable diagonal term, offset constructors, non-symmetric site terms
             if nvars >= 3 {
@@ -1202,9 +1327,9 @@ fn build_generic(r: &mut SplitMix64, kind: u64, nvars: usize, state: Vec<bool>, 
 }
 
 fn generic_scenario(ctx: &mut Ctx, r: &mut SplitMix64, ncalls: usize) {
-    let kind = r.below(7);
+    let kind = *r.pick(&[0u64, 1, 2, 3, 4, 5, 6, 7, 7]);
     let nvars = if kind == 6 { r.range(3, 4) as usize } else { r.range(2, 4) as usize };
-    let loops = kind == 0 || kind == 6 || (kind != 3 && r.coin());
+    let loops = kind == 0 || kind == 6 || (kind != 3 && kind != 7 && r.coin()) || (kind == 7 && r.chance(1, 3));
     let seed_r = r.next();
     let mut r1 = SplitMix64::new(seed_r);
     let mut r2 = SplitMix64::new(seed_r);
